@@ -51,7 +51,7 @@ Proof.
   repeat split.
   - intros s (o & m & -> & _ & H). cbn [sl_bytes]. apply ascii_utf8. apply tchar_ascii. exact H.
   - intros s (o & m & -> & _ & _ & H). exact H.
-  - intros s [(o & t & -> & H)|->]; cbn [sl_bytes]; [apply ascii_utf8; apply reason_ascii; exact H|reflexivity].
+  - intros s [(o & t & Hs & H)|Hs]; subst s; cbn [sl_bytes]; [apply ascii_utf8; apply reason_ascii; exact H|reflexivity].
 Qed.
 Print Assumptions strs_are_utf8.
 
